@@ -112,25 +112,27 @@ func RunC08(c *Ctx) {
 	// the same windows when a long time has passed since the files were written: every
 	// lock, list and table looks decades old to the code (virtual clock at 2100) - a lock
 	// stays its creator's however long it has been held
+	// (own index space: the older families keep their indices, PRNG seeds and shards)
 	e.clockAhead = lateClock
+	lidx := 5000000
 	for i, pc := range cases {
 		if len(pc.rec) != 3 || (!c.Thorough() && i%3 != 0) {
 			continue
 		}
-		if c.Mine(idx) {
-			e.sweepPair("late-clock pair-sweep", idx, engCfg(pc.cfg), pc.rec, pc.a, pc.b, pc.c, pc.preOpen, false)
+		if c.Mine(lidx) {
+			e.sweepPair("late-clock pair-sweep", lidx, engCfg(pc.cfg), pc.rec, pc.a, pc.b, pc.c, pc.preOpen, false)
 		}
-		idx++
+		lidx++
 	}
 	for ti, t := range triples[:3] {
-		if c.Mine(idx) {
-			e.sweepTriple("late-clock triple-sweep", idx, engCfg(ti), trecs[0], t[0], t[1], t[2], step+1, step+1)
+		if c.Mine(lidx) {
+			e.sweepTriple("late-clock triple-sweep", lidx, engCfg(ti), trecs[0], t[0], t[1], t[2], step+1, step+1)
 		}
-		idx++
+		lidx++
 	}
 	e.clockAhead = 0
 	// compactions of explicitly chosen overlapping / nested / disjoint ranges (table locks)
-	idx = e.explicitRanges(idx, false)
+	e.explicitRanges(8000000, false)
 	// I/O errors on lock files inside another process's lock windows
 	idx = e.faultPauseFamilies(idx)
 	// crash of a lock holder followed by other writers
@@ -156,7 +158,11 @@ func RunC08(c *Ctx) {
 // lateClockPairs re-runs every stride-th pair sweep of a check with the virtual clock set
 // decades after the files' time stamps (every lock, temporary file, table and list looks
 // very old to the code, as after a long pause): age must not change who owns what.
-func (e *engRunner) lateClockPairs(idx int, cases []pairCase, stride int, every bool) int {
+func (e *engRunner) lateClockPairs(idx0 int, cases []pairCase, stride int, every bool) int {
+	// own index space: the families that existed before keep their indices (hence their
+	// PRNG seeds and shards) - several stored seeded changes are caught by one schedule
+	idx := 5000000
+	defer func() { e.c.Rep.Count("scenario_cases_late_clock", idx-5000000) }()
 	e.clockAhead = lateClock
 	defer func() { e.clockAhead = 0 }()
 	for i, pc := range cases {
@@ -168,13 +174,14 @@ func (e *engRunner) lateClockPairs(idx int, cases []pairCase, stride int, every 
 		}
 		idx++
 	}
-	return idx
+	return idx0
 }
 
 // coarseMtimePairs re-runs every stride-th pair sweep on a "file system with coarse time
 // stamps": every FileInfo the code obtains reports the same modification time, as files
 // written within one timer tick (or one second, on file systems with that granularity) do.
-func (e *engRunner) coarseMtimePairs(idx int, cases []pairCase, stride int, every bool) int {
+func (e *engRunner) coarseMtimePairs(idx0 int, cases []pairCase, stride int, every bool) int {
+	idx := 6000000 // own index space, see lateClockPairs
 	e.coarseMtime = coarseMtime
 	defer func() { e.coarseMtime = 0 }()
 	for i, pc := range cases {
@@ -200,7 +207,7 @@ func (e *engRunner) coarseMtimePairs(idx int, cases []pairCase, stride int, ever
 			idx++
 		}
 	}
-	return idx
+	return idx0
 }
 
 // coarseMtime: larger than any run, so that all files of a scenario carry equal stamps
@@ -352,7 +359,8 @@ func (e *engRunner) removeFaultSweep(family string, idx int, gcfg gen.Cfg, rec e
 
 // removeFaultFamilies: failing unlinks of table files in reloads of stale handles, in
 // compactions and in Close/Clean.
-func (e *engRunner) removeFaultFamilies(idx int) int {
+func (e *engRunner) removeFaultFamilies(idx0 int) int {
+	idx := 7000000 // own index space, see lateClockPairs
 	c := e.c
 	cases := [][3]string{ // prologue, A, B
 		{"add,compactall", "add", "add,fresh"}, {"compactall", "read,add,read", "compactall"}, {"add,add,autocompact", "add", "clean,add"},
@@ -371,7 +379,7 @@ func (e *engRunner) removeFaultFamilies(idx int) int {
 			idx++
 		}
 	}
-	return idx
+	return idx0
 }
 
 // sweepSlowClock: like sweepPair (A parked before each of its operations while B runs), with
